@@ -33,8 +33,8 @@ Theorem C08_history_extended_by_device : forall d it,
 Proof. intros d it. split; [apply add_hist_head|]. split; [apply add_hist_parts|apply add_hist_ids]. Qed.
 
 (** the head of a buffer leaves first (C05): parts cannot overtake inside a buffer *)
-Theorem C08_every_change_guarded : forall nw fuel uops a w, R nw w (exec_fact fuel uops a w nw).
-Proof. intros. apply R_exec_fact. Qed.
+Theorem C08_every_change_guarded : forall nw fuel uops a w, R MFull nw w (exec_fact fuel uops a w nw).
+Proof. intros. apply R_exec_fact. reflexivity. Qed.
 
 Print Assumptions C08_only_configured_neighbours.
 Print Assumptions C08_longest_idle_first.
